@@ -590,7 +590,7 @@ def _build2():
         "C05",
         "exploration",
         "EMU-SIM: a small program (1-3 atoms, 2D/3D, shuffled atom order, every basis combination, XY with a magnetic field, SLM mask, DMM) is built with the SEQ-SIM actors; QutipEmulator.from_sequence is driven through a seeded history of set_config / add_config (noisy configurations drawn with the owned RNG) / run / set_evaluation_times / set_initial_state / reset_config; at t in {0, T} u slot boundaries +-1 u 8 seeded instants get_hamiltonian(t) is compared with RefHam (numpy kron in register order, documented state ordering, per-atom drive from RefRender) on the fresh emulator, after every reset_config and after noise-free steps; the sampling rate is a per-run knob (1, 0.5, 0.3, 0.12) and with a reduced rate the instants are moved to the nearest times the emulator kept; non-trivial = >=2 atoms and (>=2 channels or local addressing or SLM/DMM); distinct = distinct (register, program, emulator history)",
-        {"xy_p": 0.3, "n_max": 3, "bw_bias": 0.5, "eom_w": 3, "vary_sampling_rate": True},
+        {"xy_p": 0.3, "n_max": 3, "bw_bias": 0.5, "eom_w": 3, "vary_sampling_rate": True, "int_ids_p": 0.2},
         lambda: emu.C05(),
         runs={"quick": 1500, "thorough": 40000},
         assumptions=["per-atom drive (Omega, delta, phi) from RefRender; waveform samples from the real code", "the formula is asserted only at instants with at most one active drive per (atom, basis); others are counted and still checked for Hermiticity", "C6 read from the packaged table, C3 from the device"],
